@@ -500,8 +500,28 @@ fn stages(transcript: &Transcript, st: &RangeStatement<RistrettoPoint>, proof_by
     Some(Stages { states, y })
 }
 
-/// C08: weights recomputed from PUBLIC data under weakened derivations; for each, the two-member cancelling pair
-/// d1_0[0] += w_1, d1_1[0] -= w_0 is submitted to the library. Returns the names of the derivations for which the library accepts.
+/// the u64 by which the documented derivation binds one proof into the weight transcript: first output of the RNG built from the
+/// member's transcript after the final challenge and the three responses (external bytes all zero)
+fn final_binding(transcript: &Transcript, st: &RangeStatement<RistrettoPoint>, proof_bytes: &[u8]) -> Option<u64> {
+    use rand_core::RngCore;
+    let x = st.generators.extension_degree() as usize;
+    let elems: Vec<[u8; 32]> = proof_bytes[1..].chunks(32).map(|c| c.try_into().unwrap()).collect();
+    let s = stages(transcript, st, proof_bytes)?;
+    let mut t = s.states.last().unwrap().clone();
+    challenge(&mut t, b"e")?;
+    t.append_message(b"r1", &elems[x + 3]);
+    t.append_message(b"s1", &elems[x + 4]);
+    for k in 0..x {
+        t.append_message(b"d1", &elems[k]);
+    }
+    let mut rng = t.build_rng().finalize(&mut StuckRng(0));
+    Some(rng.next_u64())
+}
+
+/// C08: weights recomputed from PUBLIC data under a menu of weakened derivations. For each derivation: member 0's first response is
+/// shifted by 1, the weights are computed, member 1's first response is shifted by -w_0/w_1, the weights are computed AGAIN and must not
+/// have moved (otherwise that derivation does bind the responses and the attack is not available), and the pair is submitted to the
+/// library. Returns the names of the derivations for which the library accepts the two individually invalid proofs.
 pub fn weight_attack(
     transcripts: &[Transcript],
     statements: &[RangeStatement<RistrettoPoint>],
@@ -514,36 +534,72 @@ pub fn weight_attack(
     if k < 2 {
         return hits;
     }
-    let sts: Vec<Stages> = match (0..k).map(|i| stages(&transcripts[i], &statements[i], &proofs[i])).collect::<Option<Vec<_>>>() {
-        Some(s) => s,
-        None => return hits,
-    };
-    let mut variants: Vec<(String, Vec<Scalar>)> = Vec::new();
+    type Recipe<'a> = Box<dyn Fn(&[Vec<u8>]) -> Option<Vec<Scalar>> + 'a>;
+    let mut variants: Vec<(String, Recipe)> = Vec::new();
     for (name, pick) in [("weights from the RNG state after the statement (responses and proof not absorbed)", 0usize), ("after A", 1), ("after (A1,B), before the responses", usize::MAX)] {
-        let mut wt = Transcript::new(b"Bulletproofs+ verifier weights");
-        for s in &sts {
-            let stt = if pick == usize::MAX { s.states.last().unwrap() } else { &s.states[pick.min(s.states.len() - 1)] };
-            let mut rng = stt.build_rng().finalize(&mut StuckRng(0));
-            wt.append_u64(b"proof", rng.next_u64());
-        }
-        let mut wrng = wt.build_rng().finalize(&mut StuckRng(0));
-        variants.push((name.to_string(), (0..k).map(|_| nonzero(&mut wrng)).collect()));
+        variants.push((name.to_string(), Box::new(move |ps: &[Vec<u8>]| {
+            let mut wt = Transcript::new(b"Bulletproofs+ verifier weights");
+            for i in 0..k {
+                let s = stages(&transcripts[i], &statements[i], &ps[i])?;
+                let stt = if pick == usize::MAX { s.states.last().unwrap() } else { &s.states[pick.min(s.states.len() - 1)] };
+                let mut rng = stt.build_rng().finalize(&mut StuckRng(0));
+                wt.append_u64(b"proof", rng.next_u64());
+            }
+            let mut wrng = wt.build_rng().finalize(&mut StuckRng(0));
+            Some((0..k).map(|_| nonzero(&mut wrng)).collect())
+        })));
     }
-    {
+    variants.push(("empty weight transcript (no proof bound into the weights)".to_string(), Box::new(move |_ps: &[Vec<u8>]| {
         let wt = Transcript::new(b"Bulletproofs+ verifier weights");
         let mut wrng = wt.build_rng().finalize(&mut StuckRng(0));
-        variants.push(("empty weight transcript (no proof bound into the weights)".to_string(), (0..k).map(|_| nonzero(&mut wrng)).collect()));
+        Some((0..k).map(|_| nonzero(&mut wrng)).collect())
+    })));
+    // the documented per-proof binding, but weight i drawn BEFORE proof i (or before proofs i..) is absorbed
+    for (name, lag) in [("progressive: weight i drawn from the weight transcript holding only proofs 0..i-1", 0usize), ("progressive: weight i drawn after proofs 0..i-2 only", 1)] {
+        variants.push((name.to_string(), Box::new(move |ps: &[Vec<u8>]| {
+            let mut ws = Vec::new();
+            for i in 0..k {
+                let mut wt = Transcript::new(b"Bulletproofs+ verifier weights");
+                for j in 0..i.saturating_sub(lag) {
+                    wt.append_u64(b"proof", final_binding(&transcripts[j], &statements[j], &ps[j])?);
+                }
+                let mut wrng = wt.build_rng().finalize(&mut StuckRng(0));
+                ws.push(nonzero(&mut wrng));
+            }
+            Some(ws)
+        })));
     }
-    for (name, w) in variants {
+    // all weights from one RNG that absorbed every proof but the last one(s)
+    for (name, drop) in [("one weight RNG that never absorbed the last proof", 1usize)] {
+        variants.push((name.to_string(), Box::new(move |ps: &[Vec<u8>]| {
+            let mut wt = Transcript::new(b"Bulletproofs+ verifier weights");
+            for j in 0..k.saturating_sub(drop) {
+                wt.append_u64(b"proof", final_binding(&transcripts[j], &statements[j], &ps[j])?);
+            }
+            let mut wrng = wt.build_rng().finalize(&mut StuckRng(0));
+            Some((0..k).map(|_| nonzero(&mut wrng)).collect())
+        })));
+    }
+    let tweak = |bytes: &mut Vec<u8>, delta: Scalar| {
+        let mut b = [0u8; 32];
+        b.copy_from_slice(&bytes[1..33]);
+        let s = Option::<Scalar>::from(Scalar::from_canonical_bytes(b)).unwrap() + delta;
+        bytes[1..33].copy_from_slice(s.as_bytes());
+    };
+    let last = k - 1;
+    for (name, recipe) in variants {
         let mut forged: Vec<Vec<u8>> = proofs.to_vec();
-        let tweak = |bytes: &mut Vec<u8>, delta: Scalar| {
-            let mut b = [0u8; 32];
-            b.copy_from_slice(&bytes[1..33]);
-            let s = Option::<Scalar>::from(Scalar::from_canonical_bytes(b)).unwrap() + delta;
-            bytes[1..33].copy_from_slice(s.as_bytes());
+        tweak(&mut forged[0], Scalar::ONE);
+        let w = match recipe(&forged) {
+            Some(w) => w,
+            None => continue,
         };
-        tweak(&mut forged[0], w[1]);
-        tweak(&mut forged[1], -w[0]);
+        // the compensating member is the LAST one (the one a lagging derivation binds latest or never)
+        tweak(&mut forged[last], -(w[0] * w[last].invert()));
+        match recipe(&forged) {
+            Some(w2) if w2 == w => {},
+            _ => continue,
+        }
         let res = verify(&forged);
         if res.iter().any(|r| *r) {
             hits.push(name);
